@@ -120,7 +120,10 @@ check("C05", "exploration",
       "The same choice-tree space restricted to the XML/XTA common subset: each model rendered as .xml and as .xta (chained and "
       "fully written transitions), both parsed by the real library; whole-document dumps (minus the XML-only action "
       "attribute), diagnostic multisets and supported-method verdicts must agree, and the XTA document must equal the abstract "
-      "model; plus four faults injected at the same site in both renderings (rejected twins).",
+      "model; plus four faults injected at the same site in both renderings (rejected twins); plus 21 constructs beyond the "
+      "abstract model as verbatim text in both renderings (scalar sets, records, functions with every statement kind, channel "
+      "priorities, before/after update, template-local types, system-section declarations, progress measures, gantt charts), "
+      "alone and in all ordered pairs, which must also be present in the documents.",
       "Trusts the two renderers in lib/modelgen.py to express the same model; edge_t::actname ignored.",
       "choice-tree DFS with deviation bound, differential oracle between the two front ends of the real code",
       "DESIGN.md §3/C05")
@@ -156,7 +159,8 @@ check("C08", "exploration",
       "lists, type arity, bound parameters mapped, initial location of accepted TA templates) runs on the Document left by "
       "every parse of a union corpus enumerated exhaustively: the C04 choice-tree space as XML and XTA, every text block x 19 "
       "hostile texts, every single structural XML fault at every site, duplicate names over all ordered pairs of 16 "
-      "declaration kinds, degenerate XTA processes in both syntaxes - after normal return, diagnostics or exception.",
+      "declaration kinds, degenerate XTA processes in both syntaxes, the 21 constructs of C05 alone / in pairs / cut off after "
+      "every token in both formats - after normal return, diagnostics or exception.",
       "Trusts harness/dump.cpp:invcheck (self-tested against 11 hand-made corruptions on every run). Documents of crashed "
       "processes cannot be inspected (C01).",
       "bounded-exhaustive fault/shape enumeration on the real parser with an invariant oracle on every resulting state",
